@@ -308,6 +308,38 @@ func genC06(e *emitter, r *rng, thorough bool) {
 			e.emit("lax.mut2", "der.lax "+hx(x))
 		}
 	}
+	// every pair of short integers over the byte set {00,01,7f,80,ff}, correctly framed: one-byte
+	// negatives, zero, over-padding, minimal padding in both positions
+	bset := []byte{0x00, 0x01, 0x7f, 0x80, 0xff}
+	var shorts [][]byte
+	for _, a := range bset {
+		shorts = append(shorts, []byte{a})
+		for _, b := range bset {
+			shorts = append(shorts, []byte{a, b})
+		}
+	}
+	for _, a := range bset {
+		shorts = append(shorts, []byte{0x00, a, 0x55}, []byte{a, 0x00, 0x00})
+	}
+	for _, rb := range shorts {
+		for _, sb := range shorts {
+			enc := derOf(rb, sb)
+			e.emit("parse.shortints", "der.parse "+hx(enc))
+			e.emit("lax.shortints", "der.lax "+hx(enc))
+		}
+	}
+	// the same integer shapes at full width
+	for _, hb := range []byte{0x00, 0x01, 0x7f, 0x80, 0xff} {
+		for _, l := range []int{31, 32, 33} {
+			x := r.bytes(l)
+			x[0] = hb
+			y := derInt(randScalarLen(r, 32))
+			e.emit("parse.wideints", "der.parse "+hx(derOf(x, y)))
+			e.emit("lax.wideints", "der.lax "+hx(derOf(x, y)))
+			e.emit("parse.wideints", "der.parse "+hx(derOf(y, x)))
+			e.emit("lax.wideints", "der.lax "+hx(derOf(y, x)))
+		}
+	}
 	// exhaustive small strings over a 6-symbol alphabet followed by a valid tail
 	alpha := []byte{0x00, 0x01, 0x02, 0x30, 0x7f, 0x80}
 	maxLen := 5
